@@ -6,7 +6,10 @@
    association lists), generators (lists), the chain of Bindings levels
    (QueryContext.clone always flattens it: Bindings(d=bindings) copies), the
    solution's back pointer .ctx (it is used for initBindings - empty here - and
-   by Builtin_EXISTS through ctx.ctx.thaw, see [thaw_exists]). *)
+   by Builtin_EXISTS through ctx.ctx.thaw).
+
+   The model follows /repo after the fix commits a7157fc3 (GRAPH over an unknown
+   name), a24372ba (logical-and), fd13260a (QueryContext.clone). *)
 From RV Require Export Sparql.EvalBU.
 Local Open Scope N_scope.
 
@@ -71,9 +74,10 @@ Fixpoint sort_ts (c : sol) (l : list tpat) : list tpat :=
                  end) s
   end.
 
-(* QueryContext.thaw / clone: "bindings or self.bindings" - an EMPTY solution is
-   falsy, the bindings of the context are used instead *)
-Definition thaw (c a : sol) : sol := match a with [] => c | _ => a end.
+(* QueryContext.thaw / clone(bindings): "bindings if bindings is not None else
+   self.bindings" - the new context has exactly the given solution's bindings
+   (before commit fd13260a an empty solution fell back to the parent's bindings) *)
+Definition thaw (c a : sol) : sol := a.
 
 (* FrozenBindings.forget(before, _except): keep a binding if its variable is in
    _except or unbound in [before] (initBindings is empty) *)
@@ -95,14 +99,9 @@ Definition cmp_impl (op : cmpop) (a b : term) : option term :=
   | OpGt => if is_lit a && is_lit b then Some (t_bool (key_lt (lit_key b) (lit_key a))) else None
   end.
 
-(* ConditionalAndExpression: all(EBV(x) for x in [expr] + other), left to right,
-   an error in an operand reached raises *)
-Definition and_impl (a b : option bool) : option term :=
-  match a with
-  | None => None
-  | Some false => Some t_false
-  | Some true => match b with None => None | Some x => Some (t_bool x) end
-  end.
+(* ConditionalAndExpression (after commit a24372ba): operand by operand, false as
+   soon as one is false, the error only if none is false = [and3] of the
+   specification; ConditionalOrExpression likewise = [or3] *)
 
 Fixpoint eval_td (ds : dataset) (g : graph) (c : sol) (p : alg) {struct p} : list sol :=
   match p with
@@ -145,7 +144,10 @@ Fixpoint eval_td (ds : dataset) (g : graph) (c : sol) (p : alg) {struct p} : lis
   | Project q vs => map (restrict (fun v => memv v vs)) (eval_td ds g c q)
   | Graph gt q =>
       match ctx_get c gt with
-      | Some t => eval_td ds (named_graph (ds_named ds) t) c q
+      | Some t =>
+          (* commit a7157fc3: nothing unless the name is a graph of the dataset *)
+          if existsb (fun ng => N.eqb (fst ng) t) (ds_named ds)
+          then eval_td ds (named_graph (ds_named ds) t) c q else []
       | None =>
           match gt with
           | Vr v => flat_map (fun ng => join_lists (eval_td ds (snd ng) c q) [[(v, fst ng)]]) (ds_named ds)
@@ -162,7 +164,7 @@ with expr_td (ds : dataset) (g : graph) (m full : sol) (e : expr) {struct e} : o
   | EVar v => lookup v m
   | ECon t => Some t
   | ECmp op a b => cmp_lift (cmp_impl op) (expr_td ds g m full a) (expr_td ds g m full b)
-  | EAnd a b => and_impl (ebv_of (expr_td ds g m full a)) (ebv_of (expr_td ds g m full b))
+  | EAnd a b => and3 (ebv_of (expr_td ds g m full a)) (ebv_of (expr_td ds g m full b))
   | EOr a b => or3 (ebv_of (expr_td ds g m full a)) (ebv_of (expr_td ds g m full b))
   | ENot a => not3 (ebv_of (expr_td ds g m full a))
   | EBound v => Some (t_bool (match lookup v m with Some _ => true | None => false end))
